@@ -32,7 +32,7 @@ let absent file =
   while !i < nl && not !skip do
     let w = split_ws lines.(!i) in
     (match w with
-     | "OP" :: _ :: "promote" :: _ | "OP" :: _ :: "removetransports" :: _ | "OP" :: _ :: "appcmd" :: _ -> skip := true   (* role changes / in-frame application commands: outside this replay *)
+     | "OP" :: _ :: "promote" :: _ | "OP" :: _ :: "removetransports" :: _ | "OP" :: _ :: "appcmd" :: _ | "OP" :: _ :: "reconnect" :: _ -> skip := true   (* role changes / in-frame application commands: outside this replay *)
      | [ "OP"; p; "despawn"; h ] -> Hashtbl.replace pending_desp (int_of_string p, h) true
      | [ "FRAME"; p ] ->
          let pi = int_of_string p in
